@@ -329,6 +329,8 @@ Definition run_1104 (input impl : sx) : sx :=
         + reset_representative: the entry the reset turns back into a file keeps its full size);
      A2 both validators accept the announced stream;
      A3 the announced stream is reset_spec of (walk minus hidden);
+     A4 every announced entry carries the xattrs the snapshot shows for its path; B3 every regular
+        file of the destination has the xattrs of the source entry at its path;
      B1 the first transfer succeeds and the destination converged to the announced view;
      B2 the second, unchanged transfer succeeds, requests NO content and leaves the destination
         snapshot (inode numbers and link counts included) exactly as it was. *)
@@ -356,12 +358,24 @@ Definition run_1105 (input impl : sx) : sx :=
         let a2 := sx_eqb (of_optnat (run_validator (map vitem_of_stat icalls))) (SL [])
                   && sx_eqb (of_optnat (hardlink_check icalls)) (SL []) in
         let a3 := sx_eqb (SL (map enc_stat (reset_spec visible))) calls in
+        (* A4: every announced entry carries the xattrs llistxattr / lgetxattr show for its path
+           (all names of an inode share them; no com.apple.* keys are generated) *)
+        let a4 := forallb (fun s => match find_raw (st_path s) sraw with
+                                    | Some d => xattrs_eqb (st_xattrs s) (r_xattrs d)
+                                    | None => false
+                                    end) icalls in
         let src := map (fun s => (s, match find_raw (st_path s) sraw with Some d => r_content d | None => [] end)) icalls in
         let b1 := N.eqb se1 0 && N.eqb re1 0 && N.eqb h1 0 && converged false [] src dest1 in
+        (* B3: every regular file of the destination has the xattrs of the SOURCE entry at its path *)
+        let b3 := forallb (fun d => negb (N.eqb (N.land (r_mode d) Converge.S_IFMT) Converge.S_IFREG) ||
+                             match find_raw (r_path d) sraw with
+                             | Some o => xattrs_eqb (r_xattrs d) (r_xattrs o)
+                             | None => false
+                             end) dest1 in
         let b2 := N.eqb se2 0 && N.eqb re2 0 && N.eqb h2 0 && N.eqb q2 0 && sx_eqb d1 d2 in
         let code := (if a1 then 0 else 1) + (if a2 then 0 else 2) + (if a3 then 0 else 4)
-                    + (if b1 then 0 else 8) + (if b2 then 0 else 16) in
-        verdict model impl' (negb judged || (a1 && a2 && a3 && b1 && b2))
+                    + (if b1 then 0 else 8) + (if b2 then 0 else 16) + (if a4 then 0 else 32) + (if b3 then 0 else 64) in
+        verdict model impl' (negb judged || (a1 && a2 && a3 && a4 && b1 && b2 && b3))
                 (SL (SN code :: of_bool judged :: (if b1 then [] else converged_diag false [] src dest1)))%N
       end
     | _, _, _, _, _ => v_malformed
